@@ -30,7 +30,7 @@ import proofs
 
 FILES = ["Model_scsv.v", "Proofs_scsv.v", "Model_scsv_frame.v", "Proofs_scsv_frame.v", "Model_scsv_header.v",
          "Proofs_scsv_header.v", "Model_scsv_py.v", "gen/Gen_scsv.v", "Inst_scsv.v", "Inst_scsv_save.v", "Inst_scsv_header.v", "Entry_scsv.v", "Entry_scsv_gen.v",
-         "Proofs_scsv_faults.v"]
+         "Proofs_scsv_faults.v", "Model_memo.v", "Proofs_memo.v", "Proofs_scsv_session.v"]
 PROP = "Properties/C16.v"
 WS = " \t\n\r\x0b\x0c\x1c\x1d\x1e\x1f"
 TYPEMAP = {"string": str, "integer": int, "float": float, "boolean": bool, "complex": complex}
